@@ -50,6 +50,32 @@ def err(msg):
     sys.__stderr__.flush()
 
 
+def safe_execute(mod, case):
+    """mod.execute(case); an exception that escapes from the system under test
+    (innermost frame inside the pydsol sources) is a violation of totality /
+    containment, anything else is a harness error."""
+    import traceback
+    try:
+        return mod.execute(case)
+    except Exception as e:
+        tb = traceback.extract_tb(e.__traceback__)
+        src = os.path.abspath(common.REPO_SRC)
+        inner = tb[-1] if tb else None
+        in_sut = inner is not None and os.path.abspath(inner.filename).startswith(src)
+        where = "%s:%s in %s" % (os.path.basename(inner.filename), inner.lineno, inner.name) \
+            if inner else "?"
+        if in_sut:
+            return {"status": "violation", "check_id": "unexpected-exception",
+                    "message": "%s: %s escaped from %s" % (type(e).__name__, e, where),
+                    "digest": common.digest([case, "unexpected-exception", type(e).__name__]),
+                    "clean": False, "nontrivial": False, "case_digest": 0, "counters": {}}
+        return {"status": "harness", "check_id": "harness",
+                "message": "harness exception %s: %s at %s\n%s"
+                           % (type(e).__name__, e, where, traceback.format_exc()[-1500:]),
+                "digest": None, "clean": False, "nontrivial": False, "case_digest": 0,
+                "counters": {}}
+
+
 class _RunOne:
     """Callable executed in the workers: generate + execute one index."""
 
@@ -63,7 +89,7 @@ class _RunOne:
         mod = self.mod
         seed = common.derive_seed(self.base_seed, mod.PROPERTY, idx)
         case = mod.generate(seed, self.tier, idx)
-        res = mod.execute(case)
+        res = safe_execute(mod, case)
         if res.get("fail_case") is not None:
             case = res["fail_case"]
         agg.evaluations += res.get("evaluations", 1)
@@ -124,7 +150,7 @@ def _exec_strip(modname, case):
     mod = importlib.import_module(modname)
     if hasattr(mod, "init_worker"):
         mod.init_worker()
-    res = mod.execute(case)
+    res = safe_execute(mod, case)
     return {k: res.get(k) for k in ("status", "check_id", "message",
                                     "finding", "digest", "final_case")}
 
@@ -178,7 +204,7 @@ def replay_file(path, quiet=False):
     simrun_quiet.quiet()
     if hasattr(mod, "init_worker"):
         mod.init_worker()
-    res = mod.execute(rep["case"])
+    res = safe_execute(mod, rep["case"])
     same_tree = rep.get("tree") == common.tree_fingerprint()
     if not quiet:
         out("REPLAY property=%s check_id=%s status=%s digest=%s expected_check_id=%s "
